@@ -34,6 +34,7 @@ def set_final_ret(c, lit):
             c["e"] = {"lit": lit}
         return
 
+INTERRUPT_KINDS = ["custom", "keyboard", "sysexit", "genexit"]   # which BaseException an "interrupt" of the program is
 W = dict(rd.DEFAULT_W, fault=0.1, discard=0.25, force=0.3, interrupt=0.3, raise_=0.3, enable=0.05, unser=0.0,
          prep_discards=0.02, handler=0.15, playdata=0.1)
 
@@ -70,7 +71,7 @@ def generate(rng, tier):
                 set_final_ret(op["body"], ERROR_SHAPED)
             runs.append(dict(kind="record", enabled=True, prm=dict(rate=[1, 1], ignore=False, skipped=False, copy=False),
                              op=op, save_fails=False, in_handler=rng.random() < 0.3))
-        cases.append(dict(draws=[], runs=runs, cassette="memory", lookup=True))
+        cases.append(dict(interrupt_kind=rng.choice(INTERRUPT_KINDS), draws=[], runs=runs, cassette="memory", lookup=True))
     return cases
 
 
